@@ -108,6 +108,20 @@ def main():
             evs = [ev_parse()] + [ev_update(t, sample_at(w, t)) for t in range(N)]
         else:
             evs = [ev_parse(), ev_evaluate(range(N), w)]
+        if sem != "standard" and rng.random() < 0.12:
+            # the input / output declarations are changed on the parsed object, which is parsed again (before it is fed, or between
+            # two offline evaluations): the predicates follow the declarations in force (seed r9 C06-2: a Variable leaf memoised
+            # across parse() calls); the object starts with other declarations
+            io_new = dict(io)
+            io0 = {v: rng.choice(["input", "output"]) for v in vs}
+            if io0 == io_new:
+                v_ = rng.choice(vs); io0[v_] = "input" if io_new[v_] == "output" else "output"
+            o["mode"] = {"sem": sem, "io": io0}
+            cfg_ev = {"o": 1, "a": "config", "io": io_new}
+            if online or rng.random() < 0.5:
+                evs = [evs[0], cfg_ev] + evs[1:]
+            else:
+                evs = [evs[0], ev_evaluate(range(N), gen_trace(rng, vs, N, S, lo=-2, hi=3)), cfg_ev] + evs[1:]
         rels = []
         if sem == "standard":
             # STANDARD: a second object with the opposite input/output declarations must behave identically
@@ -177,6 +191,13 @@ def main():
             sc_ = {v: rng.choice(_c05.splits(len(w[v]))) for v in vs}
             # (lagging per-variable batches: some update() calls carry nothing new for a predicate's variables)
             evs = [ev_parse()] + (_c05.staggered_events(rng, w, sc_, 1) if len(vs) > 1 and rng.random() < 0.6 else _c05.schedule_events(w, sc_, 1))
+        if not online and sem != "standard" and rng.random() < 0.15:
+            io0 = {v: rng.choice(["input", "output"]) for v in vs}
+            if io0 == io:
+                v_ = rng.choice(vs); io0[v_] = "input" if io[v_] == "output" else "output"
+            o["mode"] = {"sem": sem, "io": io0}
+            cfg_ev = {"o": 1, "a": "config", "io": dict(io)}
+            evs = [evs[0]] + ([ev_ct("evaluate", w)] if rng.random() < 0.5 else []) + [cfg_ev] + evs[1:]
         dcases.append(case([o], evs, kind="ct_on" if online else "ct_off"))
     # shaped: a predicate that is insensitive under the semantics (it mentions only variables of the other kind) next to a predicate
     # over another variable, fed by update() calls that alternate between the two variables - the insensitive predicate gets calls
